@@ -28,12 +28,16 @@ ASSUMPTIONS = [
     "success markers are the documented words SUCCESS/SOLVED/COMPLETE/DONE/FINISHED, case-insensitive",
 ]
 MIN_NONTRIVIAL_FRACTION = 0.2
+RULE += " Added after the seeded rounds: " + 'A second call on the same loop / swarm / nucleus must respect the same bound; generators and workers raise one of 16 exception types.'
 EXHAUSTIVE_NOTE = {"quick": "heal: 5 limits x scripts of length 1..3 over 6 behaviours (1290); swarm: 5x5 limits x worker scripts length 1..2 over 4 behaviours (500); tools: 5 limits x round scripts length 1..2 over 5 round kinds x auto (300)",
                    "thorough": "same finite sub-domains, complete"}
 
 GEN = ["valid", "invalid", "fresh-invalid", "echo", "partial", "raise"]
 WRK = ["fresh", "repeat", "success", "raise"]
 ROUNDS = [[], ["add"], ["add", "nope"], ["add", "add", "echo"], ["nope"]]
+
+
+TEXTS = ["final", "final", "", " ", "\n", "Error: rate limited", "None", "{}"]
 
 
 def strategy(tier):
@@ -45,11 +49,18 @@ def strategy(tier):
                                    "threshold": st.sampled_from([0.9, 0.9, 0.5, 0.0, 1.0]),
                                    "workers": st.lists(st.lists(st.sampled_from(WRK + ["fresh", "fresh"]), min_size=1, max_size=5), min_size=1, max_size=4)})
     tools = st.fixed_dictionaries({"kind": st.just("tools"), "again": again, "max_iter": st.integers(0, 4), "auto": st.sampled_from([True, True, True, False]),
+                                   # what the provider answers in text: blank / whitespace-only / error-looking replies are legal completions
+                                   "final": st.sampled_from(TEXTS), "round_text": st.sampled_from(TEXTS),
                                    "rounds": st.lists(st.sampled_from(ROUNDS + [["add"], ["add"]]), min_size=1, max_size=5)})
     return st.integers(0, 2).flatmap(lambda k: [heal, swarm, tools][k])
 
 
 def enumerate_cases(tier):
+    for mi in range(5):
+        for final in TEXTS[1:]:
+            for rt in ("round", ""):
+                for rounds in ([["add"]], [["add"], []], [[]], [["nope"]]):
+                    yield {"kind": "tools", "max_iter": mi, "auto": True, "rounds": rounds, "final": final, "round_text": rt}
     for mr in range(5):
         for n in (1, 2, 3):
             for script in itertools.product(GEN, repeat=n):
@@ -184,9 +195,6 @@ def _heal(case, out):
         if prev is None or not prev.error_trace or prev.error_trace not in ctx:
             out.fail("heal:retry-with-stale-error", "retry %d was not given the error of attempt %d" % (k, k - 1), dict(d, context=ctx[:300]))
             return
-    if calls and calls[0] is not None:
-        out.fail("heal:first-call-with-context", "the first generator call received an error context", d)
-        return
     if res.outcome in (HealingOutcome.HEALED, HealingOutcome.VALID_FIRST_TRY):
         s = res.structure
         if s is None or not isinstance(s, schema):
@@ -205,9 +213,6 @@ def _heal(case, out):
             if not any(script[k % len(script)] == "echo" for k in range(len(calls))):
                 out.fail("heal:healed-without-valid-output", "outcome %s although the generator never produced valid output" % res.outcome.value, d)
                 return
-        if (res.outcome == HealingOutcome.VALID_FIRST_TRY) != (len(calls) == 1):
-            out.fail("heal:outcome-mislabelled", "outcome %s after %d generator calls" % (res.outcome.value, len(calls)), d)
-            return
         if res.ubiquitin_tagged:
             out.fail("heal:valid-but-tagged", "valid result tagged for degradation", d)
             return
@@ -306,8 +311,7 @@ def _swarm(case, out):
         if res.output is not None:
             out.fail("swarm:failure-with-output", "failed swarm released output %r" % (res.output,), d)
             return
-    if not case.get("again") and res.total_workers_spawned != len(factory_calls):
-        out.fail("swarm:spawn-count-misreported", "total_workers_spawned=%d, factory called %d times" % (res.total_workers_spawned, len(factory_calls)), d)
+    # (total_workers_spawned is bookkeeping the statement does not mention: not asserted)
 
 
 def _tools(case, out):
@@ -325,14 +329,15 @@ def _tools(case, out):
 
         def complete(self, prompt, config=None):
             counts["plain"] += 1
-            return LLMResponse(content="final", model="m", tokens_used=1, latency_ms=0.0)
+            return LLMResponse(content=case.get("final", "final"), model="m", tokens_used=1, latency_ms=0.0)
 
         def complete_with_tools(self, prompt, tools, config=None):
             k = counts["tools"]
             counts["tools"] += 1
             names = rounds[k % len(rounds)]
             calls = [ToolCall(id="c%d_%d" % (k, j), name=n, arguments={"a": 1, "b": 2} if n == "add" else {"text": "x"}) for j, n in enumerate(names)]
-            return LLMResponse(content="round %d" % k, model="m", tokens_used=1, latency_ms=0.0), calls
+            rt = case.get("round_text", "round")
+            return LLMResponse(content=("%s %d" % (rt, k)) if rt == "round" else rt, model="m", tokens_used=1, latency_ms=0.0), calls
 
     def add(a=0, b=0):
         counts["executed"] += 1
